@@ -16,7 +16,7 @@ ACTIVE, EXECUTED, CANCELED = 'ACTIVE', 'EXECUTED', 'CANCELED'
 class Rec:
     __slots__ = ('order', 'id', 'symbol', 'side', 'type', 'qty', 'price', 'reduce_only', 'created_time',
                  'created_hz', 'created_maxhz', 'status', 'in_match', 'in_liq', 'cur_price', 'seq',
-                 'strategy_price', 'transitions', 'submitted_pos_qty')
+                 'strategy_price', 'transitions', 'submitted_pos_qty', 'final_seq', 'last_fill_price')
 
 
 class Registry:
@@ -62,6 +62,8 @@ class Registry:
         r.seq = c.seq
         r.transitions = 0
         r.strategy_price = None
+        r.final_seq = None
+        r.last_fill_price = None
         p = selectors.get_position(order.exchange, order.symbol)
         r.cur_price = None if p is None or p.current_price is None else float(p.current_price)
         r.submitted_pos_qty = None if p is None else float(p.qty)
@@ -84,12 +86,14 @@ class Registry:
         if r is not None and before == ACTIVE and r.status == ACTIVE and order.status == EXECUTED:
             r.status = EXECUTED
             r.transitions += 1
+            r.final_seq = c.seq
 
     def order_cancel_end(self, c, order, before):
         r = self.rec_of(order)
         if r is not None and before == ACTIVE and r.status == ACTIVE and order.status == CANCELED:
             r.status = CANCELED
             r.transitions += 1
+            r.final_seq = c.seq
 
 
 # =============================================================================== PathMatcher
@@ -239,6 +243,14 @@ class MatchMonitor:
     def order_init(self, c, order):
         if self.cur is not None and order.symbol == self.cur['symbol']:
             self.cur['created'].append(str(order.id))
+            # a plain MARKET order created in reaction to a fill: "the current price at the moment it is
+            # submitted" is the price the path has reached, i.e. the price of that fill
+            lf = self.cur.get('last_fill_price')
+            if order.type == 'MARKET' and not order.reduce_only and lf is not None:
+                c.count('market_orders_created_mid_minute')
+                if float(order.price) != lf:
+                    self.v(c, 'C02', 'market-price', f"C02|market-order-created-at-a-fill-not-priced-at-that-fill|fast={int(self.fast)}",
+                           {'id': str(order.id), 'price': float(order.price), 'fill_price': lf})
 
     def split(self, c, candle, price, result):
         st = self.cur
@@ -309,6 +321,7 @@ class MatchMonitor:
                        {'id': str(order.id), 'type': typ})
                 return
             st['fills'] += 1
+            st['last_fill_price'] = float(order.price)
             if st['kind'] == 'step':
                 self.step_fill(c, st, reg, r, order)
             else:
@@ -320,6 +333,7 @@ class MatchMonitor:
                 # path like any other order (it splits the candle at that price): follow it with the cursor
                 c.count('market_filled_by_matcher')
                 st['fills'] += 1
+                st['last_fill_price'] = float(order.price)
                 if st['kind'] == 'step':
                     self.step_fill(c, st, reg, r, order, market=True)
             # filled before any later candle is processed
